@@ -521,8 +521,8 @@ func onlyNewEmptyDB(n *Node, before string) bool {
 	sort.Slice(dbs, func(i, j int) bool { return dbs[i].Name() < dbs[j].Name() })
 	var keep []*litefs.DB
 	for _, db := range dbs {
-		if db.Pos().TXID == 0 && !strings.Contains(before, fmt.Sprintf("[%q ", db.Name())) {
-			continue
+		if db.Pos().TXID == 0 && db.Name() != "" && !strings.Contains(before, fmt.Sprintf("[%q ", db.Name())) {
+			continue // (a database without a name is not "the database the request named")
 		}
 		keep = append(keep, db)
 	}
